@@ -468,6 +468,11 @@ where
             break;
         }
     }
+    if tie && boundary != I::ZERO {
+        // the digits ran out while the boundary still has non-zero digits left,
+        // so the number is a proper prefix of the boundary and lies below it
+        return Some(floor);
+    }
     if tie && !floor.is_odd() {
         return Some(floor);
     }
